@@ -16,6 +16,7 @@ func init() { register("C04", checkC04) }
 func checkC04(c *chk.Ctx) {
 	h := newH(c)
 	c.Decided = []string{
+		"R04d a successful Wal.Sync really covers what was appended: sync requests are received before the appended offset is read, and the flush is only skipped against the synced offset read in that round (so the head a fenced node reports after Sync is its real head)",
 		"R04a every entry point that mutates the log, acknowledges or changes role evaluates its fence guard (term / status comparison) under the controller lock before the first mutation",
 		"R04b the head reported by NewTerm is read after a WAL sync inside the same critical section; the leader appends inside the critical section that checked LEADER and allocated the offset",
 		"R04c term and status of both controllers only change to values justified by a guard (persisted new term, same-term follower traffic, installed snapshot)",
@@ -27,6 +28,7 @@ func checkC04(c *chk.Ctx) {
 	ruleR04a(h)
 	ruleR04b(h)
 	ruleR04c(h)
+	ruleSyncCompletionsCovered(h, "R04d")
 }
 
 // requirement: a disjunction of comparison predicates; every path must take an edge
